@@ -153,7 +153,7 @@ func vfServeOne(env *vfc.Env, id string, c *vfServeCase, r *ref.Rand) {
 		}
 	}()
 	var totalAcks int64
-	var signalled, idle int32
+	var signalled, idle, dialled int32
 	resume := make(chan struct{})         // closed when the sleepers may write again
 	sleeperAck := make(chan struct{}, 16) // a sleeper got a reply (or lost its connection) after resuming
 	var resumeOnce sync.Once
@@ -168,8 +168,11 @@ func vfServeOne(env *vfc.Env, id string, c *vfServeCase, r *ref.Rand) {
 		go func() {
 			defer wg.Done()
 			conn, err := net.Dial("tcp", addr)
+			atomic.AddInt32(&dialled, 1)
 			if err != nil {
-				cl.errs = "dial: " + err.Error()
+				if atomic.LoadInt32(&signalled) == 0 {
+					cl.errs = "dial: " + err.Error()
+				}
 				return
 			}
 			defer conn.Close()
@@ -232,7 +235,8 @@ func vfServeOne(env *vfc.Env, id string, c *vfServeCase, r *ref.Rand) {
 	}
 	// the termination signal arrives after a generated number of acknowledged writes
 	deadline := time.Now().Add(vfWatchdog)
-	for (atomic.LoadInt64(&totalAcks) < int64(c.ShutAfter) || atomic.LoadInt32(&idle) < int32(minI(c.Sleepers, c.Clients))) && time.Now().Before(deadline) {
+	// (the signal comes when every client has connected: a connection refused by a server that is already shutting down proves nothing)
+	for (atomic.LoadInt32(&dialled) < int32(c.Clients) || atomic.LoadInt64(&totalAcks) < int64(c.ShutAfter) || atomic.LoadInt32(&idle) < int32(minI(c.Sleepers, c.Clients))) && time.Now().Before(deadline) {
 		runtime.Gosched()
 		time.Sleep(50 * time.Microsecond)
 	}
